@@ -9,7 +9,12 @@ Correspondence (implementation vs the Lean model FV/Model/Spectral.lean):
     calculate_centroids, abs_norm_dot_product, wirelength, recenter_rectangles (Float and Rat), _build_graph, sum();
   * `sld`     — spectral_layout_die with the values returned by random.uniform captured and fed to the model:
                 coordinates, wirelength and iteration counts of the whole run (every iteration of it);
-  * `slayout` — Spectral.spectral_layout (best-of-n, recentring of hard modules, dropped centres).
+  * `slayout` — Spectral.spectral_layout (best-of-n, recentring of hard modules, dropped centres), incl. nets so heavy that
+                every trial's wirelength is inf (AssertionError on both sides) and verbose=True runs;
+  * `best-of-n` — the selection among trials driven with SCRIPTED trial results (inf / NaN / equal wirelengths) vs the model's
+                `betterTrial` fold and a first-strict-minimum oracle;
+  * `sld` damping family — dies of side 1e6..1e9 with one disc whose span is about the convergence tolerance: the
+                `max - min < epsilon` branch of the loop is taken (and the run returns).
 Spec on the implementation's output (many seeds x trial counts): disc of every movable module inside the die,
 fixed modules untouched, hard modules moved rigidly with centroid = assigned centre, soft centres = best trial + size/2,
 best trial = first strict minimum of the wirelengths, areas / flags / nets / shapes unchanged, no exception on admissible
@@ -165,6 +170,28 @@ def gen_huge(rng) -> dict:
     for _ in range(40):
         nets.append([f"M{j}" for j in rng.sample(range(n), rng.randint(2, 4))] + [rng.choice([1.0, 2.0, 0.5])])
     return {"W": W, "H": H, "mods": mods, "nets": nets}
+
+
+
+def gen_damping(rng) -> dict:
+    """a die of side 1e6..1e9 with one soft module whose span size/2 - radius is about the convergence tolerance
+    epsilon = size * n * 1e-10: after normalize all coordinates are of that magnitude, the centroids come out closer together
+    than epsilon and the loop takes its `more modest move` branch (spectral_algorithm.py: max - min < epsilon)."""
+    n = rng.randint(4, 9)
+    S = 10.0 ** rng.uniform(6.0, 9.0)
+    eps = S * n * 1e-10
+    span = eps * 10.0 ** rng.uniform(-1.2, 0.4)
+    mods = [{"name": f"M{i}", "kind": "soft", "area": rng.uniform(0.005, 0.03) * S * S} for i in range(n)]
+    r = S / 2 - span
+    mods[rng.randrange(n)]["area"] = math.pi * r * r
+    names = [m["name"] for m in mods]
+    nets = []
+    for i in range(1, n):
+        e = [names[rng.randrange(i)], names[i]]
+        if rng.random() < 0.5:
+            e.append(rng.choice([0.5, 1.0, 2.0]))
+        nets.append(e)
+    return {"W": S, "H": S, "mods": mods, "nets": nets}
 
 
 def near_filling(inp: dict, W: float, H: float) -> bool:
@@ -385,7 +412,13 @@ def check_layout_run(ctx: Ctx, inp: dict, judge: bool = True) -> None:
     exc = None
     with Patched(ctx) as p:
         try:
-            spec.spectral_layout(Shape(W, H), nf, False)
+            if inp.get("verbose"):  # the progress report must not change anything
+                import contextlib
+                import io
+                with contextlib.redirect_stdout(io.StringIO()):
+                    spec.spectral_layout(Shape(W, H), nf, True)
+            else:
+                spec.spectral_layout(Shape(W, H), nf, False)
         except Exception as ex:
             exc = ex
     ctx.case("slayout", (tuple(tok0), W, H, nf, inp["seed"]), True,
@@ -528,14 +561,37 @@ def gen_repeated(rng) -> dict:
         inp["mods"].append({"name": nm, "kind": "fterminal", "center": [x, y]})
         inp["nets"].append([nm] + rng.sample(names, rng.randint(1, min(3, len(names)))) + [rng.choice([1.0, 2.0, 0.5])])
     soft_only = all(m["kind"] in ("soft", "fterminal") for m in inp["mods"])
+    # die shapes: the instance is generated for the SMALLEST die (W x H: discs fit, fixed modules inside); the others are larger in
+    # one or both dimensions, and the calls take them in RANDOM order — so a later die may be smaller in some dimension than an
+    # earlier one (12x12 then 24x6 ...), with the same module areas
+    shapes = [(1.0, 1.0), (2.0, 1.0), (1.0, 2.0), (1.5, 1.5), (1.25, 1.0), (1.0, 3.0), (4.0, 1.0)]
+    ncalls = rng.randint(2, 3)
+    fs = rng.sample(shapes, ncalls + 1)
     calls = []
-    for k in range(rng.randint(2, 3)):
-        f = 1.0 if k == 0 else rng.choice([1.0, 1.0, 1.25, 1.5])
+    for k in range(ncalls):
+        fx, fy = fs[k]
         nfl = rng.choice([1, 1, 2])
         if k > 0 and soft_only and rng.random() < 0.4:
             nfl = 0  # refinement from the current centres (allowed: every module has a centre after the first call)
-        calls.append({"W": W * f, "H": H * f, "nfl": nfl, "seed": rng.randrange(10 ** 6)})
+        calls.append({"W": W * fx, "H": H * fy, "nfl": nfl, "seed": rng.randrange(10 ** 6)})
     inp["calls"] = calls
+    # a SECOND netlist with the same module areas in the same order (other names, other nets), laid out in the same process on
+    # yet another die — before or after the calls above
+    ren = {m["name"]: "Z" + m["name"] for m in inp["mods"]}
+    tmods = []
+    for m in inp["mods"]:
+        t = dict(m)
+        t["name"] = ren[m["name"]]
+        tmods.append(t)
+    tnames = [t["name"] for t in tmods]
+    order = tnames[:]
+    rng.shuffle(order)
+    tnets = [[order[rng.randrange(i)], order[i]] + ([rng.choice([0.5, 2.0, 3.0])] if rng.random() < 0.4 else []) for i in range(1, len(order))]
+    for _ in range(rng.randint(0, 3)):
+        tnets.append(rng.sample(tnames, min(len(tnames), rng.choice([2, 3, 4]))))
+    fx, fy = fs[ncalls]
+    inp["twin"] = {"W": W * fx, "H": H * fy, "mods": tmods, "nets": tnets, "nfl": rng.choice([1, 2]), "seed": rng.randrange(10 ** 6),
+                   "first": rng.random() < 0.5}
     inp["stream"] = "repeated"
     return inp
 
@@ -557,6 +613,10 @@ def check_repeated(ctx: Ctx, inp: dict) -> None:
         elif m["kind"] == "fterminal":
             doc_fixed[m["name"]] = ([], (float(m["center"][0]), float(m["center"][1])))
     radius = {m.name: math.sqrt(m.area() / math.pi) for m in spec.modules}
+    twin = inp.get("twin")
+    if twin is not None and twin.get("first"):
+        if not run_twin(ctx, inp, twin, spec):
+            return
     for k, call in enumerate(inp["calls"]):
         W, H, nf = call["W"], call["H"], call["nfl"]
         before = snapshot(spec)
@@ -600,6 +660,50 @@ def check_repeated(ctx: Ctx, inp: dict) -> None:
                     ctx.spec_fail(f"repeated#{k + 1}:same-as-fresh-object", inp,
                                   {"module": a.name, "repeated": [ca, ra], "fresh": [cb, rb], "call": call}, size=n)
                     return
+    if twin is not None and not twin.get("first"):
+        run_twin(ctx, inp, twin, spec)
+
+
+def run_twin(ctx: Ctx, inp: dict, twin: dict, spec) -> bool:
+    """a second netlist with the same module areas (other names, other nets) laid out in the same process on another die: all
+    clauses, fixed modules against ITS document."""
+    n = len(twin["mods"])
+    Rectangle.undefine_epsilon()
+    try:
+        tw = SP.Spectral(yaml_text(twin))
+    except Exception as ex:
+        ctx.count("build-rejected(twin):" + type(ex).__name__)
+        return True
+    if [m.area() for m in tw.modules] != [m.area() for m in spec.modules]:
+        ctx.count("twin-areas-differ(not judged as twin)")
+    W, H, nf = twin["W"], twin["H"], twin["nfl"]
+    doc_fixed = {}
+    for m in twin["mods"]:
+        if m["kind"] == "fixed":
+            doc_fixed[m["name"]] = ([(float(r[0]), float(r[1])) for r in m["rects"]], None)
+        elif m["kind"] == "fterminal":
+            doc_fixed[m["name"]] = ([], (float(m["center"][0]), float(m["center"][1])))
+    radius = {m.name: math.sqrt(m.area() / math.pi) for m in tw.modules}
+    before = snapshot(tw)
+    pos0 = {m.name: rect_pos(m) for m in tw.modules}
+    c0 = {m.name: (None if m.center is None else (m.center.x, m.center.y)) for m in tw.modules}
+    pyrandom.seed(twin["seed"])
+    exc = None
+    with Patched(ctx) as p:
+        try:
+            tw.spectral_layout(Shape(W, H), nf, False)
+        except Exception as ex:
+            exc = ex
+    ctx.case("repeated", (yaml_text(twin), "twin", W, H, nf, twin["seed"]), True)
+    ctx.count("repeated-twin-netlist-" + ("first" if twin.get("first") else "last"))
+    if exc is not None:
+        ctx.spec_fail("operation-raised", inp, {"op": "Spectral.spectral_layout (second netlist with the same areas, same process)",
+                                                "exception": type(exc).__name__, "msg": str(exc)[:120]}, size=n,
+                      finding=finding_of_raise(twin, exc, W, H, first_call=True))
+        return False
+    nfail = len(ctx.spec_failures)
+    judge_clauses(ctx, inp, tw, W, H, nf, p, before, pos0, c0, radius, doc_fixed=doc_fixed, tag="twin")
+    return len(ctx.spec_failures) == nfail
 
 
 def check_sld(ctx: Ctx, inp: dict) -> None:
@@ -713,6 +817,92 @@ def check_sld(ctx: Ctx, inp: dict) -> None:
                      {"x": mx, "y": my, "wl": mwl, "iters": mit, "unused_draws": parts[4]}, size=n)
     elif not same_iters or mx != coord[0] or my != coord[1] or mwl != wl:
         ctx.drift += 1
+
+
+
+# ------------------------------------------------------------------ best-of-n with scripted trials
+def check_best_of_n(ctx: Ctx, fixed_cases=None) -> None:
+    """the selection among the trials, driven with scripted trial results (incl. inf / NaN / equal wirelengths): the
+    result of spectral_layout_die as seen from spectral.py is replaced by a script; which trial's coordinates end up in the
+    module centres (or AssertionError when none has a wirelength below inf) must be the model's `betterTrial` fold and an
+    independent first-strict-minimum oracle."""
+    rng = ctx.rng
+    real = getattr(SP, "spectral_layout_die", None)
+    if not callable(real):
+        note_missing(ctx, "spectral.spectral_layout_die (scripted trials)")
+        return
+    text = ("Modules: {A: {area: 1.0}, B: {area: 1.0}, C: {area: 1.0}, D: {area: 2.0}}\n"
+            "Nets: [[A, B], [B, C], [C, D], [D, A]]\n")
+    cases = []
+    for _ in range(0 if fixed_cases is not None else ctx.n(60, 600)):
+        k = rng.randint(1, 6)
+        pool = [rng.uniform(1, 50), rng.uniform(1, 50), float(rng.randint(1, 4)), float(rng.randint(1, 4)), math.inf, math.nan, -math.inf, 0.0, -1.5]
+        wls = [rng.choice(pool) for _ in range(k)]
+        if rng.random() < 0.35:
+            wls = [w if math.isfinite(w) else float(rng.randint(1, 4)) for w in wls]
+        if rng.random() < 0.1:
+            wls = [rng.choice([math.inf, math.nan]) for _ in range(k)]
+        cases.append(wls)
+    if fixed_cases is not None:
+        cases = fixed_cases
+    reps = ctx.model(["F besttrial " + vec(w) for w in cases])
+    for ci, wls in enumerate(cases):
+        k = len(wls)
+        Rectangle.undefine_epsilon()
+        spec = SP.Spectral(text)
+        calls = []
+
+        def scripted(adj, mass, size, centers, fixed, _w=wls, _calls=calls):
+            i = len(_calls)
+            _calls.append(i)
+            n = len(mass)
+            return [[0.25 * (i + 1)] * n, [-0.125 * (i + 1)] * n], _w[i], [1, 1]
+        SP.spectral_layout_die = scripted
+        try:
+            try:
+                spec.spectral_layout(Shape(10.0, 8.0), k, False)
+                c = spec.modules[0].center
+                got = None if c is None else round((c.x - 5.0) / 0.25) - 1
+                impl = "none" if got is None else str(got)
+            except Exception as ex:
+                impl = err_of(ex)
+        finally:
+            SP.spectral_layout_die = real
+        ctx.case("best-of-n", tuple(f2hex(w) for w in wls), True)
+        inp = {"op": "best-of-n", "wls": [f2hex(w) for w in wls]}
+        best, best_wl = None, math.inf
+        for i, w in enumerate(wls):
+            if w < best_wl:
+                best, best_wl = i, w
+        oracle = "err:AssertionError" if best is None else str(best)
+        if len(calls) != k and not impl.startswith("err"):
+            ctx.spec_fail("layout:trial-count", inp, {"trials": len(calls), "asked": k}, size=k)
+        if impl != oracle:
+            if impl.startswith("err") and impl != "err:AssertionError":
+                ctx.spec_fail("operation-raised", inp, {"op": "spectral_layout (scripted trials)", "exception": impl}, size=k)
+            else:
+                ctx.spec_fail("layout:best-of-n", inp, {"kept_trial": impl, "first_strict_minimum": oracle, "wirelengths": wls}, size=k)
+        if reps is not None and reps[ci] != impl:
+            ctx.disagree("besttrial", inp, impl, reps[ci], size=k)
+
+
+def add_heavy_net(rng, inp: dict) -> None:
+    """one 2-pin net whose weight makes the Manhattan wirelength of every trial overflow to inf (each coordinate and the
+    degrees stay finite): no trial is below inf, best_coord stays None."""
+    names = [m["name"] for m in inp["mods"] if m["kind"] == "soft"]
+    if len(names) >= 2:
+        a, b = rng.sample(names, 2)
+        inp["nets"].append([a, b, 8e307])
+
+
+def run_sld(ctx: Ctx, inp: dict) -> None:
+    """one `sld` case; with `pre_die` the same graph and masses are laid out on that (larger) die first, in the same process."""
+    if inp.get("pre_die"):
+        big = dict(inp)
+        big["W"], big["H"] = inp["pre_die"]
+        big.pop("pre_die")
+        check_sld(ctx, big)
+    check_sld(ctx, inp)
 
 
 # ------------------------------------------------------------------ unit ops
@@ -891,30 +1081,46 @@ def run(ctx: Ctx) -> None:
                 "2..5, default and explicit weights), every disc fits (12% of the ordinary layout runs give one soft module a disc that fills the die up to a margin k in 0..5e-2); 25-30% of the runs use a huge design (the same scaled by 2^30..2^32, or 420-520 modules on 2.5e7 x 2e7) for which epsilon >= 1 and the loop is not entered; runs: Python `random` seeded per run, nfloorplans 0..3 (0 = use the "
                 "given centres), draws captured. Streams: unit ops (normalize F/Q, ortho, andp, nsum, centroids, swl, recenter F/Q), `sld` = "
                 "whole spectral_layout_die runs, `slayout` = whole spectral_layout runs (+ a few with movable terminals, correspondence "
-                "only), `delta-probe` = normalize on vectors with entries at/below 1e-9; `repeated` = 2-3 calls of spectral_layout on the SAME object (other die / trials / seed, nfloorplans = 0 refinement when every module has a centre) on netlists with fixed terminals in all quadrants: every call judged by all clauses with fixed modules compared with the document, later calls compared with a fresh object.")
+                "only), `delta-probe` = normalize on vectors with entries at/below 1e-9; `best-of-n` = spectral_layout with scripted trial results (1..6 trials, wirelengths incl. inf / NaN / -inf / ties): kept trial vs model and first-strict-minimum oracle, AssertionError when none is below inf; every 5th `sld` run is a die of side 1e6..1e9 with one module whose span is ~epsilon (damping branch); every 9th judged `slayout` run gets a net of weight 8e307 (wirelength inf in every trial; correspondence only); every 8th `slayout` run uses verbose=True; `repeated` = 2-3 calls of spectral_layout on the SAME object on dies of DIFFERENT SHAPE taken in random order (W x H, 2W x H, W x 2H, 1.5W x 1.5H, 1.25W x H, W x 3H, 4W x H: a later die may be smaller in one dimension; other trial count / seed, nfloorplans = 0 refinement when every module has a centre) plus, before or after them, a SECOND netlist with the same module areas (other names and nets) on yet another die in the same process; every 4th `sld` instance is run on an enlarged die first and then on its own die on netlists with fixed terminals in all quadrants: every call judged by all clauses with fixed modules compared with the document, later calls compared with a fresh object.")
     ctx.assumptions += [
         "admissible input: >= 4 movable modules, every module on some net, connected, every disc fits the die (radius <= size/2), "
         "fixed modules inside the die; movable terminals are outside the property's quantifier (they make recenter_rectangles divide by zero) "
         "and are exercised for correspondence only",
         "normalize bounds only coordinates with |x_i| > 1e-9 (explicit hypothesis of the theorem); runs are watched for normalize calls in that region",
         "'inside' on the float stream carries a 1e-9*size margin; equality-free in the exact-arithmetic theorem",
+        "net weights such that the Manhattan wirelength of a trial is a finite double (a weight of 8e307 makes every trial's wirelength inf: "
+        "no trial is below inf and spectral_layout fails `assert best_coord is not None` — modelled (`non_finite_wirelength_asserts`) and "
+        "compared, not judged)",
     ]
     for inp in list(getattr(ctx, "seed_inputs", []) or []):
         replay(ctx, {"input": inp})
     check_units(ctx)
     check_delta_escape(ctx)
+    check_best_of_n(ctx)
     t0 = time.time()
     budget = 9 if ctx.tier == "quick" else 150
     for i in range(ctx.n(40, 600)):
         if time.time() - t0 > min(budget * ctx.budget, max(budget, 60)):
             ctx.notes.append(f"sld stream stopped by its time budget after {i} runs")
             break
-        inp = gen_huge(rng) if rng.random() < 0.3 else gen_instance(rng, big=ctx.tier != "quick")
+        damp = i % 5 == 1
+        inp = gen_damping(rng) if damp else (gen_huge(rng) if rng.random() < 0.3 else gen_instance(rng, big=ctx.tier != "quick"))
         n = len(inp["mods"])
         inp["seed"] = rng.randrange(10 ** 6)
-        inp["init"] = [[(None if rng.random() < 0.6 else rng.uniform(0, inp["W" if d == 0 else "H"])) for _ in range(n)] for d in range(2)]
+        inp["init"] = [[(None if (damp or rng.random() < 0.6) else rng.uniform(0, inp["W" if d == 0 else "H"])) for _ in range(n)] for d in range(2)]
         inp["stream"] = "sld"
-        check_sld(ctx, inp)
+        if damp:
+            ctx.count("sld-damping-family(span ~ epsilon)")
+        if i % 4 == 2 and not damp:
+            # the same graph and masses on a die that is larger in one dimension FIRST, then on its own die (smaller in that dimension)
+            big = dict(inp)
+            if rng.random() < 0.5:
+                big["W"] = inp["W"] * rng.choice([2.0, 1.5, 3.0])
+            else:
+                big["H"] = inp["H"] * rng.choice([2.0, 1.5, 3.0])
+            ctx.count("sld-same-masses-two-dies")
+            inp["pre_die"] = [big["W"], big["H"]]
+        run_sld(ctx, inp)
     t0 = time.time()
     budget = 9 if ctx.tier == "quick" else 100
     for i in range(ctx.n(12, 300)):
@@ -948,7 +1154,12 @@ def run(ctx: Ctx) -> None:
                 if m["kind"] == "soft" and "center" not in m:
                     m["center"] = [rng.uniform(0, inp["W"]), rng.uniform(0, inp["H"])]
         inp["stream"] = "slayout"
+        inp["verbose"] = i % 8 == 3
         inp["judge"] = not any(m["kind"] == "terminal" for m in inp["mods"])
+        if i % 9 == 4 and inp["judge"] and len(inp["mods"]) < 40:
+            add_heavy_net(rng, inp)   # wirelength = inf in every trial: outside the property (finite weights/wirelength assumed)
+            inp["judge"] = False
+            ctx.count("non-finite-wirelength(correspondence only)")
         ctx.count(f"nfloorplans-{inp['nfl']}")
         ctx.count("mix:" + "".join(sorted({m["kind"][0] for m in inp["mods"]})))
         ctx.count(f"fixed-terminals-{min(3, sum(m['kind'] == 'fterminal' for m in inp['mods']))}{'+' if sum(m['kind'] == 'fterminal' for m in inp['mods']) >= 3 else ''}")
@@ -959,6 +1170,9 @@ def run(ctx: Ctx) -> None:
 
 def replay(ctx: Ctx, body: dict) -> None:
     inp = body["input"]
+    if inp.get("op") == "best-of-n":
+        check_best_of_n(ctx, fixed_cases=[[hex2f(w) for w in inp["wls"]]])
+        return
     if "op" in inp:
         print("unit-op case; re-run `./check C14` with the same VERIF_SEED to reproduce:", str(inp)[:300])
         if inp["op"] == "normalize" and "x" in inp and not isinstance(inp["x"][0], str):
@@ -983,6 +1197,6 @@ def replay(ctx: Ctx, body: dict) -> None:
     if inp.get("stream") == "repeated":
         check_repeated(ctx, inp)
     elif inp.get("stream") == "sld":
-        check_sld(ctx, inp)
+        run_sld(ctx, inp)
     else:
         check_layout_run(ctx, inp, judge=inp.get("judge", True))
